@@ -192,7 +192,7 @@ def stepConv (c : Conv) : COp → String × Conv
     | .error e => ("err " ++ e.name, c)
   | .raw l => match c.raw l with
     | .ok (seen, c') => (showSeen seen, c')
-    | .error e => ("err " ++ e.name, c)
+    | .error e => ("err " ++ e.name, c.rawFailed l)
   | .forget => ("ok", c.forget)
   | .tables na nb =>
     ("a=" ++ ",".intercalate ((List.range na).map (fun k => showSlot (c.a.tbl k)))
